@@ -411,7 +411,7 @@ def rule_nrng(prog: Program, col: Collector) -> None:
                 return True
             if t in seeded_local or root in seeded_local:
                 return True
-            if root[0] == "phi" and all(ok_receiver(x) for x in (root[2], root[3])):
+            if root[0] in ("phi", "ifexp") and all(ok_receiver(x) for x in (root[2], root[3])):
                 return True
             return False
         for e in ft.calls():
